@@ -36,13 +36,43 @@ type NodeSpec struct {
 	Children []*NodeSpec `json:"children,omitempty"`
 }
 
+// FastaSpec, FastqSpec, BedSpec mirror the library's record types. (The
+// library types implement MarshalText, so encoding/json would write them as
+// one string and could not read them back.)
+type FastaSpec struct {
+	Name     []byte `json:"name"`
+	Sequence []byte `json:"sequence"`
+}
+
+type FastqSpec struct {
+	Name     []byte `json:"name"`
+	Sequence []byte `json:"sequence"`
+	Quals    []byte `json:"quals"`
+}
+
+type BedSpec struct {
+	N                                                 int
+	Chrom, Name, Strand                               string
+	ChromStart, ChromEnd, Score, ThickStart, ThickEnd int
+	ItemRGB                                           [3]int
+	BlockCount                                        int
+	BlockSizes, BlockStarts                           []int
+}
+
+func (b *BedSpec) bed() *bed.BED {
+	return &bed.BED{N: b.N, Chrom: b.Chrom, ChromStart: b.ChromStart, ChromEnd: b.ChromEnd, Name: b.Name, Score: b.Score,
+		Strand: b.Strand, ThickStart: b.ThickStart, ThickEnd: b.ThickEnd,
+		ItemRGB: [3]byte{byte(b.ItemRGB[0]), byte(b.ItemRGB[1]), byte(b.ItemRGB[2])}, BlockCount: b.BlockCount,
+		BlockSizes: append([]int(nil), b.BlockSizes...), BlockStarts: append([]int(nil), b.BlockStarts...)}
+}
+
 // WriteRec is a record for the write-side clause; exactly one field is set.
 type WriteRec struct {
-	Fasta  *fasta.Fasta `json:"fasta,omitempty"`
-	Fastq  *fastq.Fastq `json:"fastq,omitempty"`
-	Bed    *bed.BED     `json:"bed,omitempty"`
-	Sam    *SamSpec     `json:"sam,omitempty"`
-	Newick *NodeSpec    `json:"newick,omitempty"`
+	Fasta  *FastaSpec `json:"fasta,omitempty"`
+	Fastq  *FastqSpec `json:"fastq,omitempty"`
+	Bed    *BedSpec   `json:"bed,omitempty"`
+	Sam    *SamSpec   `json:"sam,omitempty"`
+	Newick *NodeSpec  `json:"newick,omitempty"`
 }
 
 func (n *NodeSpec) node() *newick.Node {
@@ -97,11 +127,11 @@ func (s *SamSpec) sam() *sam.SAM {
 func (r *WriteRec) Write(w io.Writer) error {
 	switch {
 	case r.Fasta != nil:
-		return r.Fasta.Write(w)
+		return (&fasta.Fasta{Name: r.Fasta.Name, Sequence: r.Fasta.Sequence}).Write(w)
 	case r.Fastq != nil:
-		return r.Fastq.Write(w)
+		return (&fastq.Fastq{Name: r.Fastq.Name, Sequence: r.Fastq.Sequence, Quals: r.Fastq.Quals}).Write(w)
 	case r.Bed != nil:
-		return r.Bed.Write(w)
+		return r.Bed.bed().Write(w)
 	case r.Sam != nil:
 		return r.Sam.sam().Write(w)
 	case r.Newick != nil:
@@ -130,7 +160,7 @@ func (r *WriteRec) Format() string {
 func (r *WriteRec) String() string {
 	switch {
 	case r.Fasta != nil:
-		return fmt.Sprintf("fasta{%q %q}", r.Fasta.Name, r.Fasta.Sequence)
+		return fmt.Sprintf("fasta{%q %q}", r.Fasta.Name, trunc(r.Fasta.Sequence, 200))
 	case r.Fastq != nil:
 		return fmt.Sprintf("fastq{%q %q %q}", r.Fastq.Name, r.Fastq.Sequence, r.Fastq.Quals)
 	case r.Bed != nil:
@@ -184,23 +214,46 @@ func genNode(r *core.Rng, depth int) *NodeSpec {
 }
 
 // genRec draws a record of the format.
-func genRec(r *core.Rng, format string) *WriteRec {
+// bigLen is an occasional payload size beyond what a writer might buffer
+// internally (4 KiB, 64 KiB); 0 means "no".
+func bigLen(r *core.Rng, huge bool) int {
+	switch x := r.Intn(100); {
+	case x < 6:
+		return core.Pick(r, []int{4000, 4096, 4100, 8200, 9000}) + r.Range(-3, 3)
+	case x < 8 && huge:
+		return core.Pick(r, []int{65536, 70000, 131072}) + r.Range(-3, 3)
+	}
+	return 0
+}
+
+func genRec(r *core.Rng, format string, huge bool) *WriteRec {
+	big := bigLen(r, huge)
 	switch format {
 	case "fasta":
 		seqLen := core.Pick(r, []int{0, 1, 5, 79, 80, 81, 160, 161, 200, 400})
 		if r.Chance(0.5) {
 			seqLen = r.Range(0, 260)
 		}
-		return &WriteRec{Fasta: &fasta.Fasta{Name: r.Bytes(r.Range(0, 10), "abc XY|9"), Sequence: r.Bytes(seqLen, "ACGT")}}
+		if big > 0 {
+			seqLen = big
+		}
+		return &WriteRec{Fasta: &FastaSpec{Name: r.Bytes(r.Range(0, 10), "abc XY|9"), Sequence: r.Bytes(seqLen, "ACGT")}}
 	case "fastq":
 		n := r.Range(0, 120)
-		return &WriteRec{Fastq: &fastq.Fastq{Name: r.Bytes(r.Range(0, 10), "abc XY|9"), Sequence: r.Bytes(n, "ACGT"), Quals: r.Bytes(n, "!5I~")}}
+		if big > 0 {
+			n = big
+		}
+		return &WriteRec{Fastq: &FastqSpec{Name: r.Bytes(r.Range(0, 10), "abc XY|9"), Sequence: r.Bytes(n, "ACGT"), Quals: r.Bytes(n, "!5I~")}}
 	case "bed":
 		bc := r.Intn(5)
-		b := &bed.BED{N: r.Range(3, 12), Chrom: "chr" + string(r.Bytes(r.Range(0, 3), "12XY")), ChromStart: r.Intn(100000),
+		b := &BedSpec{N: r.Range(3, 12), Chrom: "chr" + string(r.Bytes(r.Range(0, 3), "12XY")), ChromStart: r.Intn(100000),
 			ChromEnd: r.Intn(100000), Name: string(r.Bytes(r.Range(0, 8), "abcXY9_")), Score: r.Intn(1001),
 			Strand: core.Pick(r, []string{"+", "-", "."}), ThickStart: r.Intn(5000), ThickEnd: r.Intn(5000),
-			ItemRGB: [3]byte{byte(r.Intn(256)), byte(r.Intn(256)), byte(r.Intn(256))}, BlockCount: bc}
+			ItemRGB: [3]int{r.Intn(256), r.Intn(256), r.Intn(256)}, BlockCount: bc}
+		if big > 0 {
+			bc = big / 5 // thousands of blocks: an output beyond any small internal buffer
+			b.BlockCount = bc
+		}
 		for i := 0; i < bc; i++ {
 			b.BlockSizes = append(b.BlockSizes, r.Intn(1000))
 			b.BlockStarts = append(b.BlockStarts, r.Intn(1000))
@@ -211,6 +264,9 @@ func genRec(r *core.Rng, format string) *WriteRec {
 		return &WriteRec{Bed: b}
 	case "sam":
 		n := r.Range(0, 60)
+		if big > 0 {
+			n = big
+		}
 		s := &SamSpec{Qname: string(r.Bytes(r.Range(0, 8), "abcXY9_")), Flag: r.Intn(4096), Rname: "chr1", Pos: r.Intn(100000),
 			Mapq: r.Intn(256), Cigar: core.Pick(r, []string{"*", "10M", "3S7M"}), Rnext: "=", Pnext: r.Intn(1000), Tlen: r.Intn(1000) - 500,
 			Seq: string(r.Bytes(n, "ACGT")), Qual: string(r.Bytes(n, "!5I~"))}
@@ -231,7 +287,13 @@ func genRec(r *core.Rng, format string) *WriteRec {
 		}
 		return &WriteRec{Sam: s}
 	case "newick":
-		return &WriteRec{Newick: genNode(r, 3)}
+		n := genNode(r, 3)
+		if big > 0 {
+			for i := 0; i < big/6; i++ { // a wide tree: thousands of leaves
+				n.Children = append(n.Children, &NodeSpec{Name: string(r.Bytes(4, "abcXY9"))})
+			}
+		}
+		return &WriteRec{Newick: n}
 	}
 	panic("genRec: " + format)
 }
